@@ -182,7 +182,7 @@ class Campaign:
                         raise C.MachineryError("binding self-test: corrupted trace (%s) was accepted" % c[1])
         return good, traces, fails
 
-    def explore(self, inst_name, pools_kind="shared", maxbounce=1, invariants=None, maxtries=1, max_present=None, timeout=3000, expect_violation=False, statuses=("PASS", "FAIL"), ownunexplored=None):
+    def explore(self, inst_name, pools_kind="shared", maxbounce=1, invariants=None, maxtries=1, max_present=None, timeout=3000, expect_violation=False, statuses=("PASS", "FAIL"), ownunexplored=None, live=False):
         """exhaustive exploration of the algorithm model on an instance parsed by the current tree"""
         inst = make_instance(inst_name).prepare()
         mc = A.model_constants(inst)
@@ -196,12 +196,12 @@ class Campaign:
             pools = [dict(p, shared=set(p.get("shared", set())) | inst_states) for p in A.shared_pools({"states": [s for s in mc["states"] if s not in inst_states]}, max_present)]
         else:
             pools = A.residue_pools(mc, 1)
-        r, _ = A.explore(os.path.join(self.work, "explore_" + inst_name + "_" + pools_kind + ("_oldguard" if ownunexplored is False else "")), inst, "MC_explore", pools, maxbounce=maxbounce,
-                         maxtries=maxtries, invariants=invariants or A.SAFETY, timeout=timeout, statuses=statuses, ownunexplored=ownunexplored)
+        r, _ = A.explore(os.path.join(self.work, "explore_" + inst_name + "_" + pools_kind + ("_oldguard" if ownunexplored is False else "") + ("_live" if live else "")), inst, "MC_explore", pools, maxbounce=maxbounce,
+                         maxtries=maxtries, invariants=invariants or A.SAFETY, timeout=timeout, statuses=statuses, ownunexplored=ownunexplored, live=live)
         rec = {"instance": inst_name, "workers": inst.nets, "lazy": inst.lazy, "test_classes": len(mc["tests"]), "initial_pools": len(pools),
                "pools": pools_kind, "max_backoffs_per_worker": maxbounce, "max_tries": maxtries, "statuses": list(statuses),
                "cleanup_guard": "as coded" if ownunexplored is None else ("own unexplored tests too" if ownunexplored else "globally unexplored tests only (before fix ce5db6a)"),
-               "invariants": list(invariants or A.SAFETY), "ok": bool(r.ok), "violated": r.violated, "distinct_states": r.distinct,
+               "invariants": list(invariants or A.SAFETY) + (["NoSpin (temporal, under WF(Next))"] if live else []), "ok": bool(r.ok), "violated": r.violated, "distinct_states": r.distinct,
                "states_generated": r.generated, "wall_s": round(r.wall, 1), "timeout": "TIMEOUT" in r.out}
         if not r.ok and not r.violated:
             raise C.MachineryError("exploration of %s failed: %s" % (inst_name, (r.errors[:3] or r.out[-300:])))
@@ -325,6 +325,9 @@ def explore_plan(tier, inv, retries=False, removable=False, residue=False, lost=
         plan.append(dict(inst_name="tut1x2", pools_kind="installed", maxbounce=1, maxtries=2, invariants=STRUCT + inv))
     if lost:
         plan.append(dict(inst_name="tut1x2", pools_kind="shared", maxbounce=1, invariants=STRUCT + inv, statuses=("PASS", "LOST")))
+        # liveness: no coroutine keeps the event loop for ever (await-free cycle), small instances only (TLC's liveness check is slow)
+        plan.append(dict(inst_name="tut1x2", pools_kind="shared", maxbounce=1, max_present=1, invariants=["TypeOK"], live=True))
+        plan.append(dict(inst_name="guigetx2", pools_kind="installed", maxbounce=0, max_present=0, invariants=["TypeOK"], statuses=("PASS",), live=True))
     if removable:
         plan.append(dict(inst_name="guix2", pools_kind="installed", maxbounce=0, invariants=STRUCT + inv, statuses=("PASS",), max_present=1 if quick else None))
         # producer of a removable state and its dependant both selected: lazy expansion of the dependant after the producer ran
